@@ -52,12 +52,15 @@ def known_line(pid, mech):
 
 def run_witnesses(prop, run_one):
     """re-execute canonical witnesses; returns (KNOWN-FINDING lines, new violations)"""
-    lines, viol = [], []
+    lines, viol, errors = [], [], []
     for e in entries(prop.id):
         w = (e.get("witness") or {}).get(prop.id)
         if w is None:
             continue
         out = run_one(prop, w)
+        if out.counters.get("monitor_error"):
+            errors.append(f"witness of {e['id']}: " + " ".join(n[-300:] for n in out.notes if n.startswith("MONITOR-ERROR")))
+            continue
         if e["status"] == "known":
             hit = [v for v in out.violations if classify(prop.id, w, v) == e["mechanism"]]
             if hit:
@@ -67,7 +70,7 @@ def run_witnesses(prop, run_one):
             viol.extend(("witness:" + e["id"], w, v) for v in out.violations if classify(prop.id, w, v) is None)
         else:
             viol.extend(("fixed-witness:" + e["id"], w, v) for v in out.violations if classify(prop.id, w, v) is None)
-    return lines, viol
+    return lines, viol, errors
 
 
 # ---------------------------------------------------------------------------------------
